@@ -9,8 +9,11 @@ package main
 
 import (
 	"fmt"
+	"github.com/oasisprotocol/curve25519-voi/zzverif/corpus"
 	"math/big"
 	"math/rand/v2"
+	"sync"
+	"sync/atomic"
 
 	"github.com/oasisprotocol/curve25519-voi/curve"
 	"github.com/oasisprotocol/curve25519-voi/curve/scalar"
@@ -114,6 +117,76 @@ func shortVector(r *mon.Run, k *big.Int) {
 		if ref.FromLE(ob[:]).Cmp(want) != 0 {
 			r.Violate("lattice/Int128.ToScalar", fmt.Sprintf("k=%x d=%d", k, i128(d)), c)
 		}
+	}
+}
+
+// concurrent: FindShortVector is a pure function of k; calls on different goroutines must not interfere (scratch
+// space shared between calls would). G goroutines walk the scalars that take the large-shift branches; every result
+// is checked against the postcondition and against the vector a single-goroutine call returns; one loop-iteration
+// budget covers the whole phase.
+func concurrent(r *mon.Run, ks []*big.Int) {
+	var hard []*big.Int
+	for _, g := range corpus.GroundKs() {
+		hard = append(hard, ref.FromLE(mon.UnHex(g.K)))
+	}
+	for _, k := range ks {
+		if len(hard) >= 600 {
+			break
+		}
+		if bl := new(big.Int).Mod(k, L).BitLen(); (bl > 8 && bl < 225) || bl > 252 {
+			hard = append(hard, new(big.Int).Mod(k, L))
+		}
+	}
+	type res struct{ d0, d1 lattice.Int128 }
+	want := make([]res, len(hard))
+	for i, k := range hard {
+		want[i].d0, want[i].d1 = lattice.FindShortVector(sc(k))
+	}
+	const G, rounds = 8, 6
+	var wg sync.WaitGroup
+	var exceeded, wrong, calls int64
+	var firstWrong atomic.Value
+	zzverifrt.ArmShared(int64(G*rounds*len(hard)) * 2000) // ~50x what the phase needs
+	for g := 0; g < G; g++ {
+		wg.Add(1)
+		go func(g int) {
+			defer wg.Done()
+			defer func() {
+				if e := recover(); e != nil {
+					if _, ok := e.(zzverifrt.BudgetExceeded); ok {
+						atomic.AddInt64(&exceeded, 1)
+						return
+					}
+					panic(e)
+				}
+			}()
+			for round := 0; round < rounds; round++ {
+				for j := range hard {
+					i := (j*7 + g*13 + round) % len(hard)
+					d0, d1 := lattice.FindShortVector(sc(hard[i]))
+					atomic.AddInt64(&calls, 1)
+					if d0 != want[i].d0 || d1 != want[i].d1 {
+						if atomic.AddInt64(&wrong, 1) == 1 {
+							firstWrong.Store(fmt.Sprintf("k=%x: (%d, %d) under concurrency, (%d, %d) alone", hard[i], i128(d0), i128(d1), i128(want[i].d0), i128(want[i].d1)))
+						}
+					}
+				}
+			}
+		}(g)
+	}
+	wg.Wait()
+	ticks := zzverifrt.Ticks()
+	zzverifrt.Arm(0)
+	r.EvalN(calls)
+	r.HistN("concurrent/FindShortVector-calls", calls)
+	r.Max("concurrent/loop-ticks-total", ticks)
+	r.Observe("concurrent_scalars", len(hard))
+	cc := Case{Kind: "concurrent"}
+	if exceeded > 0 {
+		r.Violate("lattice/FindShortVector/non-termination-under-concurrency", fmt.Sprintf("%d of %d goroutines were still inside FindShortVector when the phase had executed %d loop iterations (a single-goroutine pass over the same scalars takes about %d)", exceeded, G, ticks, int64(len(hard))*700), cc)
+	}
+	if wrong > 0 {
+		r.Violate("lattice/FindShortVector/result-depends-on-concurrent-calls", fmt.Sprintf("%d results differ; first: %v", wrong, firstWrong.Load()), cc)
 	}
 }
 
@@ -256,6 +329,8 @@ func runCase(r *mon.Run, c Case, ks []*big.Int) {
 		shortVector(r, k)
 	case "triple":
 		triple(r, c, ks)
+	case "concurrent":
+		concurrent(r, ks)
 	}
 }
 
@@ -278,6 +353,7 @@ func main() {
 	for i := 0; i < r.Pick(150, 3000); i++ {
 		triple(r, Case{Kind: "triple", Stream: fmt.Sprintf("c16/triple/%d", i)}, ks)
 	}
+	concurrent(r, ks)
 	r.Sample("k", fmt.Sprintf("%x", ks[40]))
 	r.Sample("k", fmt.Sprintf("%x", ks[len(ks)/2]))
 	r.Sample("case", Case{Kind: "triple", Stream: "c16/triple/0"})
